@@ -30,6 +30,12 @@ def find_dispatch(f, state_fields):
             fl = [p['f'] for p in pl['p'] if isinstance(p, dict) and 'f' in p]
             if pl['l'] == 1 and pl['p'] and pl['p'][0] == 'deref' and fl == [state_fields[0]] and len(t['targets']) >= 3:
                 out.append(bi)
+    if len(out) > 1:
+        # nested dispatches on the state (an arm that looks the state up again): the outermost one is the step dispatch
+        dom = f.dominators()
+        top = [b for b in out if all(b in dom.get(o, ()) for o in out)]
+        if len(top) == 1:
+            out = top
     if len(out) != 1:
         raise AnalysisError('%s: expected one dispatch on %s, found %d' % (f.id, state_fields[0], len(out)))
     return out[0]
@@ -62,6 +68,26 @@ class ByteFsm:
                                         self.i = l2
                         if self.i is None and f.locals[l]['name']:
                             self.i = l
+        self.get_call = None
+        if self.i is None:
+            # `while let Some(&b) = data.get(i)`: the loop test is the Option returned by slice::get(data, i)
+            for bi in f.dominators()[self.D]:
+                t = f.blocks[bi]['term']
+                if t['k'] == 'call' and re.search(r'slice::<impl \[T\]>::get$|\[T\]>::get$', (t['resolved'] or [t['callee']])[0] if False else t['callee']) and bi in f.reachable(self.H) and len(t['args']) == 2:
+                    a = t['args'][1]
+                    if a['k'] in ('copy', 'move') and not a['place']['p']:
+                        l = a['place']['l']
+                        for _ in range(3):
+                            if f.locals[l]['name']:
+                                break
+                            src_ = [s2['rv']['a']['place']['l'] for bj in f.dominators()[self.D] for s2 in f.blocks[bj]['stmts']
+                                    if not s2['lhs']['p'] and s2['lhs']['l'] == l and s2['rv']['k'] == 'use' and s2['rv']['a']['k'] in ('copy', 'move') and not s2['rv']['a']['place']['p']]
+                            if len(src_) != 1:
+                                break
+                            l = src_[0]
+                        if f.locals[l]['name']:
+                            self.i = l
+                            self.get_call = bi
         if self.i is None:
             raise AnalysisError('%s: cursor variable not found' % f.id)
         # body entry: the in-loop successor of the loop condition (so that code between the loop test and the state
@@ -78,6 +104,8 @@ class ByteFsm:
                 if len(stay) == 1 and leave and b != self.D:
                     self.body = stay[0]
                     break
+        if self.get_call is not None:
+            self.body = self.H
         self.keys = []
         for fld in state_fields:
             # the place JSON used by MIR for (*_1).<fld>: take it from any statement/terminator mentioning it
@@ -182,8 +210,17 @@ class ByteFsm:
                 return None
             return None
         rets = set(f.return_blocks())
+
+        def chook(t, env_, rd_):
+            # data.get(i) with i the cursor: Some(&byte)  (the step is evaluated for a position inside the input)
+            if re.search(r'\[T\]>::get$', t['callee']) and len(t['args']) == 2:
+                iv = rd_(t['args'][1])
+                if iv == 1000:
+                    return ('#variant', 1, (('#ptr', byte),))
+                self.impure.append((state, byte, 'data.get(%s)' % iv))
+            return None
         r = eval_region(f, self.body, env, menv=menv, assume_asserts=True, read_hook=hook, skip_calls=True, track_mem=True,
-                        stop_at={self.H} | rets, max_steps=4000)
+                        stop_at={self.H} | rets, max_steps=4000, call_hook=chook)
         kind, blk, env2 = r[0], r[1], r[2]
         menv2 = r[3] if len(r) > 3 else {}
         if kind != 'arm':
